@@ -28,6 +28,8 @@ def one(rng, name, pairs, forge):
     p = Prog(); p.tags = [name]
     va, vb = pair_values(rng, pairs)
     a, b = p.w(va), p.w(vb)
+    if forge == 0 and rng.coin(1, 6):
+        b = a; vb = va; p.tags.append("shared-handles")     # the same witness on both inputs
     o = p.logic(name, pairs, a, b)
     if forge == 1 and pairs > 0:
         p.setw(o, (p.val(o) ^ 1) % R); p.unsat(); p.tags.append("forged-output")
@@ -59,11 +61,23 @@ def run(ctx, broken):
     rng = SplitMix(ctx.seed * 1000003 + 10)
     r = ProgRunner(ctx, "C10")
     from props.c05 import cancel_cases
-    r.run(cases(rng, ctx.tier) + cancel_cases(rng, ("logic",), 1 if ctx.tier == "quick" else 8))
+    from props.common import full_alias_cases
+    specs = []
+    for pairs in ([1, 16, 31, 32, 33, 63, 64, 65, 96, 127] if ctx.tier == "quick" else range(1, 128)):
+        for name in ("and", "xor"):
+            # a small aliased input keeps the forged high part next to floor((r-1) / 2^n): the assignment that a guard with a
+            # slightly wrong modulus bound lets through; a large one exercises the range check of the guard difference
+            va, vb = rng.choice([rng.below(1 << 16), rng.below(1 << 16), rng.fe() % (1 << 250)]), rng.fe()
+            k = rng.below(2)
+            src = "w %s;w %s;%s %d $0 $1" % (hx(va if k == 0 else vb), hx(vb if k == 0 else va), name, pairs)
+            specs.append((src, k, va, [name, "alias-x-plus-r"]))
+    alias = full_alias_cases(ctx, specs)
+    r.run(cases(rng, ctx.tier) + alias + cancel_cases(rng, ("logic",), 1 if ctx.tier == "quick" else 8))
     st = r.report(broken)
     st["exhaustive_in_width"] = True
     st["rule"] = ("both operations x every pair count 0..=127 (layout exhaustive); inputs all-ones, r-1, pairs differing only "
-                  "above the width, 0/r-1, random; returned witness forged (expect unsat) or a product wire forged (model decides). "
+                  "above the width, 0/r-1, random; returned witness forged (expect unsat) or a product wire forged (model decides); COMPLETE x+r alias assignments of one input (quads, accumulators, high part, "
+                  "guard helper wires all consistent; only the canonical guard rejects) at limb-boundary pair counts (all in thorough). "
                   "Each case: layout/witness hashes impl vs model, returned value vs bitwise op on canonical values (Python oracle), "
                   "prove+verify vs model sysSat.")
     return st
